@@ -47,7 +47,29 @@ TERMS = ATOMS + [C("f", t) for t in ATOMS] + [C("f", C("f", t)) for t in (A("a")
 TERM_W = [6] * 5 + [3] * 5 + [1] * 3 + [1]
 
 
-def tc(t): return terms.to_coq(t, VARNUM)
+NAMED = {"a": "a_a", "b": "a_b", "then": "a_then", "else": "a_else", "true": "a_true", "false": "a_false", "[]": "tnil"}
+VNAME = {"X": "vx", "Y": "vy", "Z": "vz", "O1": "vo1", "O2": "vo2"}
+
+
+def tc(t):
+    """compact Coq text of a term (constants of C54/Model.v; fewer nodes elaborate faster)"""
+    k = t[0]
+    if k == "var":
+        if t[1] in VNAME: return VNAME[t[1]]
+        if isinstance(t[1], int) and t[1] < 8: return "w%d" % t[1]
+        return terms.to_coq(t, VARNUM)
+    if k == "atom" and t[1] in NAMED: return NAMED[t[1]]
+    if k == "cmp" and t[1] == "f" and len(t[2]) == 1: return "(af %s)" % tc(t[2][0])
+    if k == "cmp" and t[1] == "." and len(t[2]) == 2: return "(tcons' %s %s)" % (tc(t[2][0]), tc(t[2][1]))
+    return terms.to_coq(t, VARNUM)
+
+
+def tlist_coq(l):
+    out = "T0"
+    for t in reversed(l): out = "(TC %s %s)" % (tc(t), out)
+    return out
+
+
 def tp(t): return terms.to_prolog(t)
 
 
@@ -148,8 +170,11 @@ def case_query(case):
 
 def case_coq(case):
     kind = case["kind"]
-    bl = lambda bs: "[" + "; ".join("(%d%%N, %s)" % (VARNUM[v], tc(t)) for v, t in bs) + "]"
-    tl = lambda l: "[" + "; ".join(tc(t) for t in l) + "]"
+    def bl(bs):
+        out = "B0"
+        for v, t in reversed(bs): out = "(BC %d %s %s)" % (VARNUM[v], tc(t), out)
+        return out
+    tl = tlist_coq
     if kind in ("if", "disj", "plain"):
         k = "(%s %s)" % ({"if": "KIf", "disj": "KDisj", "plain": "KPlain"}[kind], cond_coq(case["c"]))
     else:
@@ -263,8 +288,12 @@ def parse_answers(ans):
 
 
 def answers_coq(al):
-    return "[" + "; ".join("([%s], [%s])" % ("; ".join(terms.to_coq(t) for t in b), "; ".join("(%s, %s)" % (terms.to_coq(x), terms.to_coq(y)) for x, y in d))
-                           for b, d in al) + "]"
+    out = "A0"
+    for b, d in reversed(al):
+        ds = "P0"
+        for x, y in reversed(d): ds = "(PC (PP %s %s) %s)" % (tc(x), tc(y), ds)
+        out = "(AC (AN %s %s) %s)" % (tlist_coq(b), ds, out)
+    return out
 
 
 def answers_text(al):
